@@ -263,8 +263,10 @@ Definition unbond (s : state) (a : Z) : res :=
   | Some r =>
     if o_online r then Err e_invalid
     (* `if _, err = GetUnbondingDelegation(...); err != nil { return nil, err }` : the call is refused
-       unless an unbonding entry of (delegate address, validator) STILL EXISTS *)
-    else if negb (has_ubd a (o_val r) (ubds s)) then Err e_staking
+       unless an unbonding entry of (delegate address, validator) STILL EXISTS.  The shape of this test is
+       re-read from msg_server.go on every run ([unbond_needs_entry], gen/Gen_OracleSlash.v); with the
+       condition the other way round the call is refused while an entry exists. *)
+    else if negb (Bool.eqb (has_ubd a (o_val r) (ubds s)) unbond_needs_entry) then Err e_staking
     else
       let bal := bal_d s a in
       let sl := slash_amount r (p_fraction (prm s)) in
